@@ -73,6 +73,21 @@ CLAIMED = {
         text="TLC checks MassConserved, MeanConserved, InRange, Neighbours, NonNeg on the whole grid (2-5 atoms, rewards inside/outside/on atoms, done, gamma^n in {0,1/4,1/2,1}). Every case is replayed into the real _dqn_loss; proj_dist from the guarded hook must equal the spec's m exactly, the element-wise loss must equal -sum m ln q; real learn() runs (1-step, n-step, combined, with/without PER, up to 51 atoms) are validated as traces incl. gamma vs gamma^n and priorities.",
         note="Trusted: TLC, dyadic grids so float32 is exact, rigorous float32 bound for the cross-entropy, hook reports the tensors used.",
         design="4/C18"),
+    "C06": dict(
+        technique="TLA+ spec EvoHP.tla over exact rationals (Rat.tla): own-base, clip, cast, one-change, lr-effective, model-checked by TLC + TLC trace validation of the real Mutations(rl_hp) on real populations built from one shared configuration object",
+        text="TLC checks InRange, IntIsInt, LrEffective, OneChange, OwnBase for a float lr and an int batch size at both boundaries over all sequences of <= 5 mutations / copies of two agents. The real rl_hyperparam_mutation is driven per agent and per population, interleaved with learn steps and clones, for every algorithm; exact traces (dyadic factors incl. shrink>1 / grow<1) log every value as a fraction and TLC recomputes clip/cast from the agent's own value; traces with the default factors carry measured facts.",
+        note="Trusted: TLC, Fraction(float) exactness, mapping of optimizers to their intended learning rate by attribute name. The direction and the hyperparameter are drawn by the real code and observed.",
+        design="4/C06"),
+    "C16": dict(
+        technique="TLA+ spec Dist.tla (exact rational kernel for masked categorical / multi-categorical / Bernoulli / Normal-quadratic-form distributions + history machine EvalIsFunctionOfArgument) model-checked by TLC + TLC-dumped cases replayed into real actors / PPO / IPPO with stubbed head outputs, history traces validated by TLC",
+        text="TLC checks MassOne, MaskedZero, ProductOverComponents, Support, BoxQuadratic on the kernel grid and the history invariants (with a negative control that must fail). 6.5k dumped cases are replayed into the real StochasticActor, PPO.get_action / evaluate_actions / learn and IPPO; exp(log_prob) is compared with the spec's rational, entropy with -sum p ln p of the masked pmfs, samples with the support; history traces of real unstubbed networks (with and without tanh squashing) are validated against Dist_Trace.",
+        note="Trusted: TLC, the one transcendental evaluation done by the harness (ln 2, ln 2 pi, tanh correction as the code defines it), tolerance 1e-6 (1e-5 history). The numeric density of squashed policies beyond the code's own definition is a declared gap.",
+        design="4/C16, 5"),
+    "C19": dict(
+        technique="TLA+ spec Bandit.tla (exact rational Sherman-Morrison kernel + carry/re-initialise protocol) model-checked by TLC + TLC trace validation of real NeuralUCB / NeuralTS agents (linear actor: exact; MLP actors: residual class) through decisions, learn, mutations, clones and checkpoint round trips",
+        text="TLC checks GramDef, IsInverse, Symmetric, PosDef, BonusNonNeg, DimFollowsLayer, Ownership, InitScale over all sequences of <= 4 decisions with integer contexts and lambda in {1/2,1,2}, and the protocol over 8 actions. Real agents with a linear custom actor take decisions (chosen arm observed, gradient feature recomputed independently); after every operation sigma_inv is compared with the spec's rational matrix by TLC; default / MLP actors are validated on the discrete history plus a residual class.",
+        note="Trusted: TLC, 1e-6 fixed-point encoding of sigma_inv (tolerance 1.2e-5), residual tolerance 1e-3 for float features. Re-initialisation on mutation is allowed by the property and accepted.",
+        design="4/C19"),
 }
 NOT_YET = "check not built yet in this round (planned, see DESIGN.md section 4)"
 
